@@ -269,7 +269,9 @@ Definition check_if_match (self : fileserver) (req : request) (p : ppath) (absen
     end
   else ret tt.
 
-(* fileserver.py:223-235: spool into a temporary file next to the target, rename over the target, stat for the new ETag *)
+(* fileserver.py:223-238: spool into a temporary file next to the target, rename over the target, stat for the new ETag.
+   The temporary file is created first; writing the body (which fails on a full disk), closing and renaming sit in one
+   try block whose except clause unlinks the temporary file and re-raises *)
 Definition store_file (self : fileserver) (req : request) (p : ppath) : FM response :=
   let dir := parent p in
   d <-- open_dir_w dir ;;;                                         (* tempfile.NamedTemporaryFile(dir=path.parent, delete=False) *)
@@ -278,15 +280,13 @@ Definition store_file (self : fileserver) (req : request) (p : ppath) : FM respo
   | inr _ =>
       let tmp := child dir (fs_tmpname self) in
       let shown := child (abspath self dir) (fs_tmpname self) in   (* _mkstemp_inner: dir = os.path.abspath(dir) *)
-      (* spool.write(request.payload) sits inside the `with` block, BEFORE the try/except that unlinks: when it fails (full
-         disk) the exception leaves the block, the file (delete=False) stays behind empty and the request is answered 5.00 *)
       let full := fs_disk_full self && nonempty_list (payload req) in
       c <-- create shown tmp (if full then [] else payload req) ;;;
       match c with
       | inl e => raise (XOSError e)
       | inr _ =>
-        if full then raise (XOSError ENOSPC) else
-          r <-- rename shown tmp p ;;;                             (* temppath.rename(path) *)
+          r <-- (if full then ret (inl ENOSPC)                     (* with spool: spool.write(request.payload) fails *)
+                 else rename shown tmp p) ;;;                      (* temppath.rename(path) *)
           match r with
           | inl e => unlink shown tmp ;;; raise (XOSError e)       (* except Exception: temppath.unlink(); raise *)
           | inr _ =>
@@ -355,11 +355,19 @@ Definition key_eqb (a b : spoolkey) : bool :=
   (c1 =? c2) && parts_eqb p1 p2 && list_eqb etag_eqb e1 e2 && list_eqb etag_eqb m1 m2 && Bool.eqb n1 n2.
 Fixpoint spool_find (sp : list (spoolkey * list Z)) (k : spoolkey) : option (list Z) :=
   match sp with [] => None | (k', b) :: r => if key_eqb k' k then Some b else spool_find r k end.
+Fixpoint spool_remove (sp : list (spoolkey * list Z)) (k : spoolkey) : list (spoolkey * list Z) :=
+  match sp with [] => [] | (k', b') :: r => if key_eqb k' k then spool_remove r k else (k', b') :: spool_remove r k end.
+(* BlockwiseTuple.is_valid_for_payload_size negated (optiontypes.py:194-203): with M set the block must fill its size (BERT: a
+   multiple of 1024), the final block must not exceed it (BERT: anything) *)
+Definition block1_invalid (more : bool) (szx : Z) (pl : list Z) : bool :=
+  if szx =? 7 then more && negb (blen pl mod 1024 =? 0)
+  else if more then negb (blen pl =? blk_size szx) else blk_size szx <? blen pl.
 Fixpoint spool_set (sp : list (spoolkey * list Z)) (k : spoolkey) (b : list Z) : list (spoolkey * list Z) :=
   match sp with [] => [(k, b)] | (k', b') :: r => if key_eqb k' k then (k', b) :: r else (k', b') :: spool_set r k b end.
-(* blockwise.py:63-91 Block1Spool.feed_and_take with message.py:445-472 _append_request_block: block 0 (re)starts the
-   body; a later block must have a full-size payload while M is set (4.00) and must start where the body ends (4.08);
-   while M is set the answer is 2.31 Continue; the last block releases the request with the assembled body *)
+(* blockwise.py:65-95 Block1Spool.feed_and_take with message.py:445-467 _append_request_block: block 0 (re)starts the
+   body (unchecked); a later block must have a valid payload size (4.00) and must start where the body ends (4.08; also for an
+   unknown key); while M is set the body stays in the spool and the answer is 2.31 Continue; the last block takes the
+   assembled request OUT of the spool (pop) and releases it *)
 Definition feed_and_take (req : request) : FM request :=
   match opt_block1 req with
   | None => ret req
@@ -371,15 +379,14 @@ Definition feed_and_take (req : request) : FM request :=
           else match spool_find (st_spool st) k with
                | None => inl XIncomplete
                | Some acc =>
-                   if more && negb ((blen (payload req) =? blk_size szx) || ((szx =? 7) && (blen (payload req) mod blk_size szx =? 0)))
-                   then inl XBadRequest
+                   if block1_invalid more szx (payload req) then inl XBadRequest
                    else if blk_start num szx =? blen acc then inr (acc ++ payload req) else inl XIncomplete
                end in
         match assembled with
         | inl e => ((st, []), inl e)
         | inr body =>
-            let st' := {| st_fs := st_fs st; st_obs := st_obs st; st_spool := spool_set (st_spool st) k body |} in
-            if more then ((st', []), inl XContinue) else ((st', []), inr (with_payload req body))
+            if more then (({| st_fs := st_fs st; st_obs := st_obs st; st_spool := spool_set (st_spool st) k body |}, []), inl XContinue)
+            else (({| st_fs := st_fs st; st_obs := st_obs st; st_spool := spool_remove (st_spool st) k |}, []), inr (with_payload req body))
         end
   end.
 
